@@ -28,7 +28,16 @@ var names = []string{"A", "B", "C"}
 var prios = []int{300, 200, 100}
 
 var answers = []string{"ok", "ok4xx", "ok5xx", "ok099"}
-var faults = append(append([]string{}, scen.PreKinds...), scen.PostKinds...)
+// "dnsfail" (unresolvable endpoint host) needs the host override of package scen; scen19 builds its own stacks, so it is left to C02/C04
+var faults = func() []string {
+	var out []string
+	for _, k := range append(append([]string{}, scen.PreKinds...), scen.PostKinds...) {
+		if k != "dnsfail" {
+			out = append(out, k)
+		}
+	}
+	return out
+}()
 
 // holding kinds: the request reaches the backend, so a gate can hold the attempt open
 func holding(k string) bool { return k != "refuse" && k != "open" }
